@@ -42,5 +42,30 @@ def main():
     sys.exit(1 if fails else 0)
 
 
+def main_only_reference_buses():
+    """every bus carries a reference machine: there is no PV and no PQ bus"""
+    fails = []
+    net = pp.create_empty_network()
+    b = pp.create_buses(net, 3, 110.)
+    for f, t in ((0, 1), (1, 2), (2, 0)):
+        pp.create_line_from_parameters(net, b[f], b[t], 30., 0.06, 0.3, 10., 1.)
+    pp.create_ext_grid(net, b[0], vm_pu=1.02, slack_weight=1.)
+    pp.create_ext_grid(net, b[1], vm_pu=1.01, slack_weight=3.)
+    pp.create_gen(net, b[2], p_mw=20., vm_pu=1.0, slack=True, slack_weight=0.5)
+    pp.create_load(net, b[0], 30., 5.); pp.create_load(net, b[1], 40., 8.); pp.create_load(net, b[2], 25., 4.)
+    pp.runpp(net, distributed_slack=True, tolerance_mva=1e-9)
+    ratios = {"ext_grid 0": net.res_ext_grid.p_mw.at[0] / 1., "ext_grid 1": net.res_ext_grid.p_mw.at[1] / 3.,
+              "gen 0": (net.res_gen.p_mw.at[0] - 20.) / 0.5}
+    vals = np.array(list(ratios.values()))
+    if np.max(vals) - np.min(vals) > 1e-4 * max(1., abs(vals).max()):
+        fails.append("network of reference buses only: deviation / slack_weight differs between participants: " +
+                     ", ".join(f"{k}: {v:.4f}" for k, v in ratios.items()))
+    for f in fails:
+        print("REPRODUCED:", f)
+    if not fails:
+        print("not reproduced: the balancing power is shared in proportion to the slack weights")
+    sys.exit(1 if fails else 0)
+
+
 if __name__ == "__main__":
     main()
